@@ -29,6 +29,47 @@ def step_cfg(c, writers, events, aux):
             "SPECIFICATION Spec\n%sCHECK_DEADLOCK FALSE\n") % (mb, mf, b(dur), b(toor), writers, events, aux, STEP_INVS)
 
 
+TRACE_CFGS = [(100, 1, True), (100, 0, False), (150, 2, False), (0, 0, False), (60, 2, True)]
+
+
+def fstrace(vh, scr, tc, seed, n, tag, corrupt=False):
+    """Records n executions of the real sink for one configuration and validates them against FsTrace.tla."""
+    import shutil, random
+    mb, mf, toor = tc
+    wd = scr.path("tlc-fst-" + tag)
+    shutil.copytree(os.path.join(VERIF, "spec", "filesink"), wd)
+    tf = os.path.join(wd, "fstraces.ndjson")
+    p = run_vh(vh, ["fs-trace", "-seed", str(seed), "-n", str(n), "-maxbytes", str(mb), "-maxfiles", str(mf), "-toor=%s" % ("true" if toor else "false"), "-out", tf], timeout=900)
+    if p.returncode != 0:
+        raise Broken("fs-trace failed: " + p.stderr[-1000:])
+    ids = [json.loads(l)["id"] for l in open(tf) if l.strip()]
+    if corrupt:
+        rng = random.Random(seed)
+        lines = []
+        for l in open(tf):
+            t = json.loads(l)
+            idx = [i for i, e in enumerate(t["ev"]) if e["e"] in ("written", "counted", "opened")]
+            if not idx:
+                continue
+            i = rng.choice(idx)
+            if rng.random() < 0.5:
+                del t["ev"][i]                       # a step without its hook event
+            else:
+                t["ev"].insert(i, dict(t["ev"][i]))  # a step that happened twice
+            lines.append(json.dumps(t))
+        open(tf, "w").write("\n".join(lines) + "\n")
+        ids = [json.loads(l)["id"] for l in lines]
+    cfg = ("CONSTANTS\n  MaxBytes = %d\n  MaxFiles = %d\n  DurOn = FALSE\n  TOOR = %s\n  Writers = {\"w1\", \"w2\", \"w3\", \"c\"}\n  Sizes = {}\n  MaxEvents = 0\n  D = 0\n  MaxAux = 0\n"
+           "INIT TInit\nNEXT TNext\nINVARIANTS TInv Report\nCHECK_DEADLOCK FALSE\n") % (mb, mf, b(toor))
+    res = run_tlc(scr, "filesink", "FsTrace", cfg, "fst-" + tag, workers=2, timeout=900, heap="3g")
+    acc = {}
+    for line in open(res.out_path, errors="replace"):
+        if line.startswith('<<"ACCEPT"'):
+            parts = line.strip().strip("<>").split(",")
+            acc[int(parts[1])] = acc.get(int(parts[1]), False) or parts[2].strip() == "TRUE"
+    return ids, acc, res
+
+
 def run(prop, tier, seed, out):
     quick = tier == "quick"
     with Scratch("fs") as scr:
@@ -67,6 +108,30 @@ def run(prop, tier, seed, out):
                 r = json.load(open(outp))
                 log("  replay cfg%d %s %5.1fs edges=%d skipped=%d mismatches=%d" % (i, c, time.time() - t0, r["edges"], r["skipped_timing"], r["mismatch_count"]))
                 reports.append((c, r))
+            # code -> spec: hook traces of concurrent executions validated against the step-level model
+            f_tr = [ex.submit(fstrace, vh, scr, tc, seed + i, 25 if quick else 250, "t%d" % i) for i, tc in enumerate(TRACE_CFGS[:3 if quick else 5])]
+            f_self = ex.submit(fstrace, vh, scr, TRACE_CFGS[0], seed + 99, 15, "self", True)
+            tr_total, tr_acc = 0, 0
+            for f in f_tr:
+                ids, acc, res = f.result()
+                if res.error:
+                    raise Broken("FsTrace run failed: " + str(res.error))
+                if res.violated:
+                    out.violation("an execution of the real FileSink reaches a state of FileSink.tla that violates %s" % res.violated, {"tlc": res.out[-3000:]})
+                out.add_tlc(res)
+                tr_total += len(ids)
+                tr_acc += sum(1 for i in ids if i in acc)
+                bad_final = [i for i in ids if i in acc and not acc[i]]
+                if bad_final:
+                    out.violation("%d executions end with a directory that differs from the model's (first: trace %d)" % (len(bad_final), bad_final[0]), {"traces": bad_final[:5]})
+                rej = [i for i in ids if i not in acc]
+                if rej:
+                    out.notes.append("MODEL-DRIFT: %d hook traces are not behaviours of FileSink.tla (step order differs from the model)" % len(rej))
+            ids, acc, res = f_self.result()
+            if res.error:
+                raise Broken("FsTrace self-test failed to run: " + str(res.error))
+            if any(acc.get(i) for i in ids):
+                raise Broken("binding self-test failed: corrupted hook traces accepted: %s" % [i for i in ids if acc.get(i)][:5])
             for f in f_design + f_step:
                 r = f.result()
                 if r.violated:
@@ -75,7 +140,9 @@ def run(prop, tier, seed, out):
                 out.add_tlc(r)
         edges = sum(r["edges"] - r["skipped_timing"] for _, r in reports)
         cov = out.coverage
-        cov["traces_validated_against_impl"] = edges + len(stress["conc"]) + len(stress["crash"])
+        cov["traces_validated_against_impl"] = edges + len(stress["conc"]) + len(stress["crash"]) + tr_acc
+        cov["hook_traces_recorded"] = tr_total
+        cov["hook_traces_accepted_by_FsTrace"] = tr_acc
         cov["evaluations"] = sum(r["comparisons"] for _, r in reports) + len(stress["conc"]) + len(stress["crash"])
         cov["distinct_nontrivial"] = sum(r["distinct_nontrivial"] for _, r in reports)
         cov["rotations_observed"] = sum(r["rotations_observed"] for _, r in reports)
